@@ -100,14 +100,15 @@ CLAIMED = {
          "task is scheduled (exactly once), RUN only from run_all and never before its time, run-now tasks in FIFO order before timed ones, tasks "
          "scheduled from inside a running task wait for the next run_all, cancel invokes synchronously with CANCELED, clean_up cancels everything "
          "pending including tasks scheduled by cancelled callbacks, next-task-time equals the ghost minimum after every step.",
-    note="NOT decided: programs in which run_all or clean_up pops a task from the timed heap while another is queued (F0F1R, F0RR, ...): symbolic "
-         "execution did not finish in 100 s; the heap ordering itself is C06. Only the listed scripts are claimed.",
+    note="NOT decided: programs in which run_all runs a task from the timed heap (F0R, F0F1R, F0RR, ...): symbolic execution did not finish in "
+         "100 s, also with every task and both heap arrays as their own typed objects; the heap ordering itself is C06. Only the listed scripts are claimed.",
     technique="CBMC bounded symbolic execution of task_scheduler.c (+ priority_queue.c, linked_list.inl) on scripted programs with ghost bookkeeping"),
  "C14": dict(
     text="Level gate + foreground channel: a pipeline logger over the REAL foreground channel, K=2..3 AWS_LOGF calls with symbolic levels, symbolic "
          "initial level and one level change at a symbolic position: a call produces exactly one line iff its level is at or below the active "
          "level, lines reach the writer once each, in call order, each the line of its own call, with the channel mutex held during the write "
-         "and released afterwards. Truncation clause of the formatter: aws_format_standard_log_line into a fixed-size buffer of 2..16 (quick) / 2..40 bytes, with every "
+         "and released afterwards; the same gate for a logger that is NOT the process-wide root logger (AWS_LOGUF after a manual level check; root logger absent "
+         "or another logger with a symbolic level): the logger's own level decides and nothing reaches the root logger. Truncation clause of the formatter: aws_format_standard_log_line into a fixed-size buffer of 2..16 (quick) / 2..40 bytes, with every "
          "snprintf/vsnprintf result length (0..size+3, or failure), every produced character and the timestamp length symbolic -- i.e. every "
          "possible truncation point of every piece: all stores stay inside the buffer, amount_written <= total_length, the line ends in a "
          "newline, contains no NUL and exactly one newline, also when it had to be cut.",
@@ -185,7 +186,9 @@ NA = {
  "C08": "thread scheduler: needs interleavings of pointer-sharing threads (CBMC: 'pointer handling for concurrency is unsound'); the sequentialised "
         "harness over task_scheduler.c did not finish symbolic execution (see C07: every program that pops the timed heap timed out), so nothing could be built on it",
  "C11": "JSON: cJSON's growing print buffer and recursive parser exceeded 12 GB / 240 s in every CBMC instance tried for the neighbouring parsers of this size "
-        "(cbor, uri); numbers rest on libc strtod/sprintf %g which have no encodable semantics here; not attempted further in this round",
+        "(cbor, uri); numbers rest on libc strtod/sprintf %g which have no encodable semantics here. A harness for the object/array access clause alone was "
+        "built in the last round (harness/C11: one typed object per cJSON node, reference ordered map with case-insensitive keys) but even a 4-operation "
+        "script did not finish symbolic execution in 300 s (cJSON_Delete: recursion x sibling loop x three deallocations per node), so nothing is claimed",
  "C12": "XML well-formed traversal: harness with an independent reference parser was built (harness/C12), but CBMC finishes only when the document AND the "
         "callback choices are fully concrete (1-2 s); any symbolic document byte or per-node choice exceeded 240 s, and a fully concrete run is enumeration, "
         "not a solver verdict over inputs, so it is not claimed. Memory safety of the parser on arbitrary short documents is part of C04.",
